@@ -22,6 +22,8 @@ THEOREMS = [
     "C17.last_partition",
     "C17.timeout_fires_exactly",
     "C17.timeout_never_after_terminal",
+    "C17.timeout_switch_at_first_large_gap",
+    "C17.timeout_no_switch_small_gaps",
     "C17.timeout_timer_current",
     "C17.towm_fires_exactly",
     "C17.towm_never_after_terminal",
@@ -299,5 +301,5 @@ def shrink(case):
         yield c
 
 
-LEVEL_TEXT = ("Lean theorems, for all timelines with non-decreasing times, all durations and element types: take/skip(_until)_with_time pass exactly the notifications before / after the boundary timer in scheduler order; take_last_with_time (REPAIRED code) emits at completion exactly the elements with age < d and skip_last_with_time exactly those with age >= d (and each as soon as it is d old), by a rule that mentions only the element's own age; timeout (id / switched / Serial timer, relative or absolute due time) switches exactly when the deadline precedes the next source notification and never after a source terminal; timeout_with_mapper as a trace machine equals the current-timer rule on every event interleaving. The as-is take_last_with_time is shown (decide) to keep or drop an element exactly d old depending on an unrelated arrival. Tied to the code by differential runs on TestScheduler (hot and cold sources, elements before/at/after every boundary, absolute times in the past) and by oracles written from the property text.")
+LEVEL_TEXT = ("Lean theorems, for all timelines with non-decreasing times, all durations and element types: take/skip(_until)_with_time pass exactly the notifications before / after the boundary timer in scheduler order; take_last_with_time (REPAIRED code) emits at completion exactly the elements with age < d and skip_last_with_time exactly those with age >= d (and each as soon as it is d old), by a rule that mentions only the element's own age; timeout (id / switched / Serial timer, relative or absolute due time) switches exactly when the deadline precedes the next source notification (also stated by gaps: at last+d after the first gap > d, never if all gaps <= d) and never after a source terminal; timeout_with_mapper as a trace machine equals the current-timer rule on every event interleaving. The as-is take_last_with_time is shown (decide) to keep or drop an element exactly d old depending on an unrelated arrival. Tied to the code by differential runs on TestScheduler (hot and cold sources, elements before/at/after every boundary, absolute times in the past) and by oracles written from the property text.")
 LEVEL_NOTE = ('Defect (DESIGN §6 #4): on the pinned tree take_last_with_time uses `>=` on arrival and `<=` at completion; the model is of the code after fixes/C17_take_last_with_time_boundary.patch (`<` at completion, consistent with skip_last_with_time; repo suite passes). Against the unfixed tree the check reports VIOLATION with a replay. timeout_with_mapper: the global event order is driver glue (stable merge), validated by the correspondence only. Trusted: correspondence harness, generators, the inlined scheduler tie rule.')
